@@ -356,9 +356,12 @@ ConfOptic(op, a, o) ==
 (* ---- C19 Var interface and forgetting ---- *)
 ConfVar(op, a, o) ==
   CASE op = "var.script" ->
-         LET t == VBuild(a.script, a.srcs, a.tgts) IN
-         IF Leaks(a.script) THEN IsErr(o) /\ o.val = t          \* the shared state is handed back
-         ELSE IsOk(o) /\ o.val = t
+         \* C19 speaks about the term's structure (one hyperedge per operator, every use reads the value
+         \* produced for it, interfaces in order), not about node numbering: compared up to isomorphism
+         LET t == VBuild(a.script, a.srcs, a.tgts)
+             same(x) == WFLax(x) /\ LaxIsStrict(x) /\ Iso(LaxToPlain(x), LaxToPlain(t)) IN
+         IF Leaks(a.script) THEN IsErr(o) /\ same(o.val)          \* the shared state is handed back
+         ELSE IsOk(o) /\ same(o.val)
     [] op = "var.forget" \/ op = "var.forget_monogamous" ->
          LET f == Strictify(a.f)  r == ForgetRef(f, op = "var.forget_monogamous") IN
          /\ IsVal(o) /\ WFLax(o.val) /\ LaxConsistent(o.val) /\ Iso(Strictify(o.val), r)
